@@ -29,7 +29,7 @@ import (
 
 func init() {
 	simrt.Register(&simrt.Info{Property: "C35", Engine: &dlEngine{},
-		Rule: "one case = 1..6 scripted peers (announced height, latency, default behaviour) with per-(peer,height,attempt) exceptions out of serve / refuse / slow refuse / finite stall / garbage (4 shapes) / empty reply / wrong oneof / nil block / wrong-height block / serve after delay / EOF (and, in open runs, stall forever), one or two download tasks over 1..120 heights, and a seeded interleaving of the per-height download goroutines at their seams (peer pick, dial, result); distinct = scenario digest + schedule digest; non-trivial = at least one request failed and at least two heights were in flight",
+		Rule: "one case = 1..6 scripted peers (announced height, latency, default behaviour) with per-(peer,height,attempt) exceptions out of serve / refuse / slow refuse / finite stall / garbage (4 shapes) / empty reply / wrong oneof / nil block / wrong-height block / serve after a short (<=5 s) or long (>=20 s) delay / EOF / stall forever, one or two download tasks over 1..120 heights, and a seeded interleaving of the per-height download goroutines at their seams (peer pick, dial, result); distinct = scenario digest + schedule digest; non-trivial = at least one request failed and at least two heights were in flight",
 		Nontrivial: func(sc *simrt.Scenario, r *simrt.Result) bool {
 			return r.Probes["dl-failed-ask"] > 0 && r.Probes["dl-multi-height"] > 0
 		}})
@@ -65,14 +65,13 @@ const (
 	c35Quantum   = 100 * time.Millisecond
 	c35MaxSteps  = 60000
 	c35MaxHeight = 100000
+	// a peer that answers within this many seconds counts as serving the height
+	c35ShortDelay = 5
 )
 
 func (dlEngine) Generate(prop string, r *simrt.RNG, tier string, run int) *simrt.Scenario {
 	sc := &simrt.Scenario{Knobs: map[string]int64{}}
-	open := r.Chance(1, 4)
-	if open {
-		sc.Knobs["open"] = 1
-	}
+	open := true // (peers that never answer are generated in every run)
 	np := r.Range(1, 6)
 	var count int
 	switch r.Intn(6) {
@@ -97,7 +96,12 @@ func (dlEngine) Generate(prop string, r *simrt.RNG, tier string, run int) *simrt
 		case bStall:
 			p = r.Range(1, 60)
 		case bDelay:
-			p = r.Range(1, 30)
+			// a short delay is a peer that serves; a long one is a peer the node
+			// may give up on (what lies between is left open and not generated)
+			p = r.Range(1, 5)
+			if r.Chance(1, 3) {
+				p = r.Range(20, 40)
+			}
 		}
 		return b, p
 	}
@@ -348,7 +352,7 @@ type dlAsk struct {
 func (dlEngine) run(ctx *simrt.Ctx) *simrt.Violation {
 	sc := ctx.Sc
 	uid := fmt.Sprintf("%s-%d-%d", sc.Property, sc.Run, ctx.Seq())
-	open := sc.Knob("open", 0) == 1
+	open := true
 	sched := &gsched{ctx: ctx, height: map[int64]int64{}, retrySteps: map[string]int{}}
 	n := newNode(ctx, nodeOpts{uid: uid, baseCtx: func(c context.Context) context.Context {
 		return &seamCtx{Context: c, seam: func() { sched.park("pick") }}
@@ -682,11 +686,8 @@ func runTask(ctx *simrt.Ctx, n *node, sched *gsched, mu *sync.Mutex, peers []*dl
 			if p.ann < hgt {
 				continue
 			}
-			b, _ := p.behaviour(hgt, 0)
-			if !open && b == bStallForever {
-				b = bStall
-			}
-			if b == bServe || b == bDelay {
+			b, bp := p.behaviour(hgt, 0)
+			if b == bServe || (b == bDelay && bp <= c35ShortDelay) {
 				servable = true
 			}
 			if p.wrongFor[hgt] {
